@@ -105,3 +105,60 @@ def dump_units(wd, units, extra_types=()):
         name, dim, mag, org, label = line.split("|", 4)
         res[name] = {"dim": parse_pack(dim), "mag": parse_pack(mag), "has_origin": org == "1", "label": label}
     return res
+
+
+def _is_prime(n):
+    if n < 2:
+        return False
+    for p in (2, 3, 5, 7, 11, 13, 17, 19, 23, 29, 31, 37):
+        if n % p == 0:
+            return n == p
+    d, s = n - 1, 0
+    while d % 2 == 0:
+        d //= 2
+        s += 1
+    for a in (2, 3, 5, 7, 11, 13, 17, 19, 23, 29, 31, 37):
+        x = pow(a, d, n)
+        if x in (1, n - 1):
+            continue
+        for _ in range(s - 1):
+            x = x * x % n
+            if x == n - 1:
+                break
+        else:
+            return False
+    return True
+
+
+def factor(n):
+    """Full prime factorisation {p: e} (trial division + Pollard rho), n < 2^64 or so."""
+    import math
+    out = {}
+
+    def rec(m):
+        if m == 1:
+            return
+        if _is_prime(m):
+            out[m] = out.get(m, 0) + 1
+            return
+        for p in (2, 3, 5, 7, 11, 13, 17, 19, 23, 29, 31, 37):
+            if m % p == 0:
+                out[p] = out.get(p, 0) + 1
+                rec(m // p)
+                return
+        c = 1
+        while True:
+            x = y = 2
+            d = 1
+            while d == 1:
+                x = (x * x + c) % m
+                y = (y * y + c) % m
+                y = (y * y + c) % m
+                d = math.gcd(abs(x - y), m)
+            if d != m:
+                rec(d)
+                rec(m // d)
+                return
+            c += 1
+    rec(n)
+    return out
